@@ -50,10 +50,13 @@ func (k *sink) StatN(n string, x int) {
 }
 func (k *sink) Eval(key string) { k.mu.Lock(); k.c.Eval(key); k.mu.Unlock() }
 func (k *sink) Sample(x any)    { k.mu.Lock(); k.c.Sample(x); k.mu.Unlock() }
-func (k *sink) Compare(r *StoreRun) (string, string) {
+func (k *sink) Compare(r *StoreRun, fill bool) (string, string) {
 	k.mu.Lock()
 	defer k.mu.Unlock()
 	k.c.Res.ModelCases++
+	if fill {
+		return r.CompareWithModelMode(k.c.Model(), "C12", "runfill")
+	}
 	return r.CompareWithModel(k.c.Model(), "C12")
 }
 
@@ -64,6 +67,7 @@ type c12Case struct {
 	Setup   int         `json:"setup"` // leading operations of client 0 that run alone first
 	Sched   []int       `json:"sched"` // explicit schedule after the setup; then: continue the last client, else lowest enabled
 	Note    string      `json:"note,omitempty"`
+	Fill    bool        `json:"fill,omitempty"` // create-then-fill put discipline (local file engine)
 }
 
 type c12Choice struct {
@@ -73,9 +77,10 @@ type c12Choice struct {
 }
 
 type c12Result struct {
-	run     *StoreRun
-	choices []c12Choice
-	sched   []int // performed after setup
+	run       *StoreRun
+	choices   []c12Choice
+	sched     []int // performed after setup
+	completed bool  // the schedule ran to its end and the oracles on the real code passed
 }
 
 func hasDup(xs []int) bool {
@@ -84,6 +89,15 @@ func hasDup(xs []int) bool {
 			if xs[i] == xs[j] {
 				return true
 			}
+		}
+	}
+	return false
+}
+
+func containsStr(xs []string, x string) bool {
+	for _, y := range xs {
+		if y == x {
+			return true
 		}
 	}
 	return false
@@ -108,13 +122,19 @@ func c12Run(c *sink, cs *c12Case, everyStep bool) (*c12Result, bool) {
 		c.Fail("harness", "C12:harness:setup", err.Error(), cs)
 		return nil, false
 	}
+	e.Atomic = !cs.Fill
 	res := &c12Result{run: r}
 	failed := false
 	replay := func() any {
-		return &c12Case{Clients: cs.Clients, Setup: cs.Setup, Sched: append([]int(nil), res.sched...), Note: cs.Note}
+		return &c12Case{Clients: cs.Clients, Setup: cs.Setup, Sched: append([]int(nil), res.sched...), Note: cs.Note, Fill: cs.Fill}
 	}
 	checkReadable := func(when string) {
 		if failed {
+			return
+		}
+		if len(e.HalfWritten()) > 0 {
+			// a file is being filled right now: a reader arriving now waits for the writer
+			// (readID retries); readability is checked as soon as nothing is half-written
 			return
 		}
 		ps, err := r.Observe()
@@ -169,7 +189,26 @@ func c12Run(c *sink, cs *c12Case, everyStep bool) (*c12Result, bool) {
 	}
 	nSetup := len(r.Sched)
 	last := -1
+	emptyReads := map[int]int{}
 	step := func(cl int) {
+		if cs.Fill {
+			// spin breaker: a client that keeps reading a file another client is filling (readID
+			// retries with growing sleeps) hands over to that writer after two empty reads
+			if op, path, blocked := e.Pending(cl); blocked && op == "get" && containsStr(e.HalfWritten(), path) {
+				emptyReads[cl]++
+				if emptyReads[cl] > 2 {
+					for k := range cs.Clients {
+						if op2, p2, b2 := e.Pending(k); b2 && op2 == "write" && p2 == path {
+							c.Stat("fill:spin-broken")
+							cl = k
+							break
+						}
+					}
+				}
+			} else {
+				emptyReads[cl] = 0
+			}
+		}
 		var en []int
 		for k := range cs.Clients {
 			if r.Enabled(k) {
@@ -256,8 +295,9 @@ func c12Run(c *sink, cs *c12Case, everyStep bool) (*c12Result, bool) {
 	if unjust != "" {
 		c.Stat("lin:failure-class-not-sequential")
 	}
+	res.completed = true
 	// correspondence with the model
-	if diff, req := c.Compare(r); diff != "" {
+	if diff, req := c.Compare(r, cs.Fill); diff != "" {
 		c.Fail("correspondence", "C12:model:"+strings.SplitN(diff, "[", 2)[0], "model and code disagree: "+diff, map[string]any{"case": replay(), "model_request": req})
 		return res, false
 	}
@@ -496,7 +536,7 @@ func c12Enumerate(c *sink, base *c12Case, bound, maxRuns int, everyStep bool, de
 	for len(stack) > 0 && runs < maxRuns && time.Now().Before(deadline) {
 		it := stack[len(stack)-1]
 		stack = stack[:len(stack)-1]
-		cs := &c12Case{Clients: base.Clients, Setup: base.Setup, Sched: it.prefix, Note: base.Note}
+		cs := &c12Case{Clients: base.Clients, Setup: base.Setup, Sched: it.prefix, Note: base.Note, Fill: base.Fill}
 		res, ok := c12Run(c, cs, everyStep)
 		runs++
 		if res != nil {
@@ -504,10 +544,11 @@ func c12Enumerate(c *sink, base *c12Case, bound, maxRuns int, everyStep bool, de
 			c12Stats(c, cs, res)
 			c.Stat(fmt.Sprintf("enum:preemptions:%d", it.pre))
 		}
-		if !ok || res == nil {
+		if res == nil || !(ok || res.completed) {
 			continue
 		}
-		// count preemptions along the run and branch
+		// count preemptions along the run and branch (also when only the model disagreed: the
+		// search for a failing input on the real code goes on)
 		pre := 0
 		for i, ch := range res.choices {
 			prevEnabled := i > 0 && contains(ch.enabled, res.choices[i-1].chosen)
@@ -718,7 +759,7 @@ func runC12(c0 *Ctx) {
 	}
 	if c0.Want("warm") {
 		n := c0.N(60, 1500)
-		deadline := time.Now().Add(time.Duration(c0.N(25, 240)) * time.Second)
+		deadline := time.Now().Add(time.Duration(c0.N(15, 240)) * time.Second)
 		cases := make([]*c12WarmCase, n)
 		for i := range cases {
 			cases[i] = c12WarmCaseGen(c0)
@@ -736,8 +777,8 @@ func runC12(c0 *Ctx) {
 	}
 	if c0.Want("enum") {
 		fixed := c12Fixed()
-		deadline := time.Now().Add(time.Duration(c0.N(35, 420)) * time.Second)
-		bound, perScenario := c0.N(1, 2), c0.N(60, 6000)
+		deadline := time.Now().Add(time.Duration(c0.N(30, 420)) * time.Second)
+		bound, perScenario := c0.N(1, 2), c0.N(45, 6000)
 		everyStep := os.Getenv("C12_EVERY") != "0"
 		ParallelDo(len(fixed), c12Workers, func(i int) {
 			cs := fixed[i]
@@ -746,9 +787,27 @@ func runC12(c0 *Ctx) {
 			c.Sample(map[string]any{"enum": cs.Note, "runs": n})
 		})
 	}
+	if c0.Want("fill") {
+		// create-then-fill puts: exclusive create / truncate, then the content; readers may see
+		// the empty file.  Preemptions between the two halves of every put are enumerated.
+		fixed := c12Fixed()
+		var sel []*c12Case
+		for _, i := range []int{0, 1, 2, 3, 5, 9} {
+			f := *fixed[i]
+			f.Fill = true
+			f.Note = "fill: " + f.Note
+			sel = append(sel, &f)
+		}
+		deadline := time.Now().Add(time.Duration(c0.N(20, 300)) * time.Second)
+		bound, perScenario := c0.N(1, 2), c0.N(35, 4000)
+		ParallelDo(len(sel), c12Workers, func(i int) {
+			n := c12Enumerate(c, sel[i], bound, perScenario, true, deadline)
+			c.StatN("fill:runs", n)
+		})
+	}
 	if c0.Want("rand") {
-		n := c0.N(200, 8000)
-		deadline := time.Now().Add(time.Duration(c0.N(35, 360)) * time.Second)
+		n := c0.N(150, 8000)
+		deadline := time.Now().Add(time.Duration(c0.N(25, 360)) * time.Second)
 		cases := make([]*c12Case, n)
 		for i := range cases {
 			cases[i] = c12Random(c0)
